@@ -1,5 +1,8 @@
-"""C10 - SBML export/import: the *identifier escaping kernel only* (the libsbml document layer is not applicable,
-DESIGN section 5).
+"""C10 - SBML export/import.
+
+Document layer (DESIGN 10.5): c10_document (round trip through the real writer and reader) and c10_foreign (third-party
+document shapes) run on a documented stand-in of the libsbml object model on symbolic paths and on the real libsbml on replays.
+Identifier escaping kernel:
 
 Functions: _f_gene/_f_gene_rev, _f_specie/_f_specie_rev, _f_reaction/_f_reaction_rev, _f_group/_f_group_rev,
 _escape_non_alphanum, _number_to_chr, _clip (cobra/io/sbml.py) - the real code.
@@ -119,6 +122,7 @@ def c10_document(E, with_groups=("none", "reactions+metabolites")):
         for g in m.genes:
             g.name = "gene " + g.id
         m.genes.g1.annotation = {"ncbigene": ["1", "2"]}
+        m.metabolites.A.annotation = {"kegg.compound": ["C21", "C2"], "chebi": ["CHEBI:17234"]}     # an identifier contained in another
         m.metabolites.B.annotation = {"kegg.compound": "C2", "sbo": "SBO:0000247"}
         m.reactions.EX_A.annotation = {"sbo": "SBO:0000627"}
         m.notes = {"k": "v"}
@@ -173,6 +177,118 @@ def c10_document(E, with_groups=("none", "reactions+metabolites")):
 
 from vlib.vsym import Concretized as vsym_Concretized  # noqa: E402
 
+def c10_foreign(E):
+    """"Reading a valid third-party SBML file never silently alters stoichiometry, bounds or objective": a document is built
+    directly through the libsbml API (the stand-in on symbolic paths, the real library on replays) in shapes cobrapy's own writer
+    never produces - a species listed twice on one side or on both sides of a reaction, one bound parameter shared by several
+    reactions, bounds missing, two flux objectives, minimisation - with symbolic stoichiometries, parameter values and
+    objective coefficients, and read with the real _sbml_to_model."""
+    import cobra.io.sbml as sb
+    from vlib import env
+    from vlib.vsym import lift
+    env.for_path(E)
+    L = sb.libsbml
+    ns = L.SBMLNamespaces(3, 1)
+    ns.addPackageNamespace("fbc", 2)
+    doc = L.SBMLDocument(ns)
+    doc.setPackageRequired("fbc", False)
+    model = doc.createModel()
+    model.setId("third_party")
+    model.getPlugin("fbc").setStrict(True)
+    c = model.createCompartment()
+    c.setId("c")
+    c.setConstant(True)
+    for sid in ("M_a", "M_b", "M_h"):
+        sp = model.createSpecies()
+        sp.setId(sid)
+        sp.setCompartment("c")
+        sp.setConstant(False)
+        sp.setBoundaryCondition(False)
+        sp.setHasOnlySubstanceUnits(False)
+    vals = {"p_lo": E.real("p_lo", -50, 0), "p_hi": E.real("p_hi", 0, 50), "p_own": E.real("p_own", -50, 50)}
+    E.assume(E.le(vals["p_own"], vals["p_hi"]))
+    for pid, v in vals.items():
+        p = model.createParameter()
+        p.setId(pid)
+        p.setValue(v)
+        p.setConstant(True)
+    shape = E.pick("species_references", ["plain", "twice-among-reactants", "both-sides", "both-sides-cancelling"])
+    s1, s2, s3 = E.real("s1", 0.25, 4), E.real("s2", 0.25, 4), E.real("s3", 0.25, 4)
+    layout = {"plain": ([("M_a", s1), ("M_h", s2)], [("M_b", s3)]),
+              "twice-among-reactants": ([("M_a", s1), ("M_h", s2), ("M_a", s3)], [("M_b", 1.0)]),
+              "both-sides": ([("M_a", 1.0), ("M_h", s1)], [("M_b", s2), ("M_h", s3)]),
+              "both-sides-cancelling": ([("M_a", s1), ("M_h", s2)], [("M_b", s3), ("M_h", s2)])}[shape]
+    bounds_kind = E.pick("bounds", ["shared-parameters", "own-lower", "missing"])
+    rdefs = [("R_conv", layout), ("R_src", ([], [("M_a", 1.0)])), ("R_snk", ([("M_b", 1.0)], []))]
+    for rid, (reac, prod) in rdefs:
+        r = model.createReaction()
+        r.setId(rid)
+        r.setReversible(True)
+        r.setFast(False)
+        for lst, make in ((reac, r.createReactant), (prod, r.createProduct)):
+            for sid, st in lst:
+                ref = make()
+                ref.setSpecies(sid)
+                ref.setStoichiometry(st)
+                ref.setConstant(True)
+        fb = r.getPlugin("fbc")
+        if bounds_kind != "missing" or rid != "R_conv":
+            fb.setLowerFluxBound("p_own" if (bounds_kind == "own-lower" and rid == "R_conv") else "p_lo")
+            fb.setUpperFluxBound("p_hi")
+    mf = model.getPlugin("fbc")
+    obj = mf.createObjective()
+    obj.setId("obj")
+    direction = E.pick("direction", ["maximize", "minimize"])
+    obj.setType(direction)
+    mf.setActiveObjectiveId("obj")
+    c1, c2 = E.real("c_snk", -5, 5), E.real("c_conv", -5, 5)
+    for rid, co in (("R_snk", c1), ("R_conv", c2)):
+        fo = obj.createFluxObjective()
+        fo.setReaction(rid)
+        fo.setCoefficient(co)
+    E.note(species_references=shape, bounds=bounds_kind, direction=direction)
+    number = env.Float if E.symbolic else float
+    try:
+        m = sb._sbml_to_model(doc, number=number)
+    except Exception as e:
+        if isinstance(e, vsym_Concretized):
+            raise
+        E.prove(False, "valid-third-party-document-loads", exc=type(e).__name__, msg=str(e)[:200])
+        return
+    E.prove(sorted(r.id for r in m.reactions) == ["conv", "snk", "src"], "reactions-as-in-the-document", got=[r.id for r in m.reactions])
+    if "conv" not in m.reactions:
+        return
+    # net stoichiometry per species
+    net = {}
+    for sid, st in layout[0]:
+        net[sid[2:]] = net.get(sid[2:], 0) - st
+    for sid, st in layout[1]:
+        net[sid[2:]] = net.get(sid[2:], 0) + st
+    got = {mt.id: co for mt, co in m.reactions.conv.metabolites.items()}
+    for mid, want in net.items():
+        if mid in got:
+            E.prove(E.eq(got[mid], want), "stoichiometry=net-of-the-species-references", met=mid, shape=shape)
+        else:
+            E.prove(E.eq(want, 0), "stoichiometry=net-of-the-species-references", met=mid, shape=shape, got="absent")
+    E.prove(set(got) <= set(net), "stoichiometry=net-of-the-species-references", extra=sorted(set(got) - set(net)))
+    import cobra
+    cfg = cobra.Configuration()
+    want_lb = {"shared-parameters": vals["p_lo"], "own-lower": vals["p_own"], "missing": cfg.lower_bound}[bounds_kind]
+    want_ub = cfg.upper_bound if bounds_kind == "missing" else vals["p_hi"]
+    E.prove(E.all_of([E.eq(m.reactions.conv.lower_bound, want_lb), E.eq(m.reactions.conv.upper_bound, want_ub)]),
+            "bounds=parameter-values", reaction="conv", kind=bounds_kind)
+    for rid in ("src", "snk"):
+        r = m.reactions.get_by_id(rid)
+        E.prove(E.all_of([E.eq(r.lower_bound, vals["p_lo"]), E.eq(r.upper_bound, vals["p_hi"])]), "bounds=parameter-values", reaction=rid)
+    from cobra.util.solver import linear_reaction_coefficients
+    oc = {r.id: co for r, co in linear_reaction_coefficients(m).items()}
+    for rid, want in (("snk", c1), ("conv", c2)):
+        E.prove(E.eq(oc.get(rid, 0), want), "objective-coefficients-as-in-the-document", reaction=rid)
+    E.prove(set(oc) <= {"snk", "conv"}, "objective-coefficients-as-in-the-document", extra=sorted(set(oc) - {"snk", "conv"}))
+    E.prove(m.objective_direction == ("max" if direction == "maximize" else "min"), "objective-direction-as-in-the-document",
+            got=m.objective_direction)
+
+
 
 HARNESSES = [
     H("c10_document", c10_document, quick=dict(max_paths=20000, time_budget=70), thorough=dict(max_paths=200000, time_budget=400),
@@ -182,6 +298,11 @@ HARNESSES = [
              "Configuration().bounds (-1000,1000)/(-10,10); charge / formula / annotation / notes tables; groups of reactions and "
              "metabolites or none; default F_REPLACE id escaping; libsbml replaced by a documented stand-in on symbolic paths, "
              "the real libsbml (plus validate_sbml_model) on every 25th path's witness"),
+    H("c10_foreign", c10_foreign, quick=dict(max_paths=20000, time_budget=40), thorough=dict(max_paths=200000, time_budget=200),
+      witness_every=10,
+      bounds="a 3-reaction, 3-species document built through the libsbml API: species referenced twice on one side / on both sides / "
+             "cancelling; bound parameters shared, own, or missing; two flux objectives; maximize/minimize; symbolic stoichiometries "
+             "[1/4,4], parameter values [-50,50], objective coefficients [-5,5]"),
     H("c10_enumerate", c10_enumerate, tiers=("quick",), quick=dict(max_paths=40000, time_budget=60), witness_every=500,
       bounds="every string of length 1..4 over the class alphabet %r (letter, prefix letter, digits, '_', '.', 2-digit-code, "
              "3-digit-code, non-ASCII 3- and 4-digit-code characters, blank); 4 id kinds" % ALPHABET),
@@ -259,7 +380,8 @@ def main(tier, seed, args):
                  crosshair_note="verdict 'no-counterexample-within-budget' is CrossHair's 'Not confirmed': a bounded search, not exhaustive")
     code = runner.run_check(PID, tier, HARNESSES, seed=seed, only=args.only.split(",") if args.only else None,
                             extra_evidence=extra,
-                            assumptions=["libsbml document layer not covered (not applicable)",
+                            assumptions=["document layer: libsbml replaced by the documented stand-in vlib/fakesbml.py on symbolic paths "
+                                         "(XML text layer, validity of the document and the libsbml parser on witness replays only)",
                                          "strings of bounded length; CrossHair's symbolic str model of re.sub"])
     for l in sorted(set(lines)):
         print(l)
